@@ -16,19 +16,20 @@ import (
 )
 
 var (
-	flagProp      = flag.String("prop", "", "property id (C01…); empty with -all runs every rule")
-	flagTier      = flag.String("tier", "", "quick|thorough (default: $VERIF_TIER or quick)")
-	flagRepo      = flag.String("repo", "/repo", "repository to analyse")
-	flagVerif     = flag.String("verif", "/verif", "verification directory (evidence, known findings, out)")
-	flagAll       = flag.Bool("all", false, "run all rules, print every non-discharged obligation, write no evidence")
-	flagDump      = flag.Bool("dump", false, "print every obligation")
-	flagRule      = flag.String("rule", "", "restrict to rules with this prefix (debug)")
-	flagNoEv      = flag.Bool("no-evidence", false, "do not write evidence/out files (used for scratch trees)")
-	flagCHA       = flag.Bool("cha", false, "use the CHA call graph")
-	flagReplay    = flag.String("replay", "", "print a violation record and re-run its rule")
-	flagOverlay   = flag.String("overlay", "", "apply this unified diff to the repository in memory before analysing (sensitivity sweep; never writes to disk)")
-	flagPropsJSON = flag.Bool("props-json", false, "print {property: [rules]} from the registry (used by gen_manifest.py)")
-	flagCat       = flag.Bool("catalogue", false, "print the rule catalogue as a markdown table (rule, properties, obligations on the current tree, doc)")
+	flagProp       = flag.String("prop", "", "property id (C01…); empty with -all runs every rule")
+	flagTier       = flag.String("tier", "", "quick|thorough (default: $VERIF_TIER or quick)")
+	flagRepo       = flag.String("repo", "/repo", "repository to analyse")
+	flagVerif      = flag.String("verif", "/verif", "verification directory (evidence, known findings, out)")
+	flagAll        = flag.Bool("all", false, "run all rules, print every non-discharged obligation, write no evidence")
+	flagDump       = flag.Bool("dump", false, "print every obligation")
+	flagRule       = flag.String("rule", "", "restrict to rules with this prefix (debug)")
+	flagNoEv       = flag.Bool("no-evidence", false, "do not write evidence/out files (used for scratch trees)")
+	flagCHA        = flag.Bool("cha", false, "use the CHA call graph")
+	flagReplay     = flag.String("replay", "", "print a violation record and re-run its rule")
+	flagOverlay    = flag.String("overlay", "", "apply this unified diff to the repository in memory before analysing (sensitivity sweep; never writes to disk)")
+	flagPropsJSON  = flag.Bool("props-json", false, "print {property: [rules]} from the registry (used by gen_manifest.py)")
+	flagGenAnchors = flag.Bool("gen-anchors", false, "write checker/anchors_gen.go (prints of functions and fields) from the analysed tree")
+	flagCat        = flag.Bool("catalogue", false, "print the rule catalogue as a markdown table (rule, properties, obligations on the current tree, doc)")
 )
 
 func main() {
@@ -76,6 +77,11 @@ func main() {
 		}
 		b, _ := json.Marshal(out)
 		fmt.Println(string(b))
+		return
+	}
+	if *flagGenAnchors {
+		c := Load(*flagRepo, Config{Name: "default"}, nil)
+		c.genAnchors(filepath.Join(*flagVerif, "checker", "anchors_gen.go"))
 		return
 	}
 	if *flagCat {
@@ -319,6 +325,9 @@ func runProperty(prop, tier string, seed int, start time.Time) int {
 		"exhaustive":          true,
 		"checker_cmd":         strings.Join(os.Args, " "),
 		"trusted_base":        []string{"go/parser + go/types (go1.23.5)", "golang.org/x/tools v0.29.0 go/ssa lowering and VTA call graph", "frozen specification tables in checker/spec.go (RFC 7950)", "reasoned-exception tables in the rules (one named construct + one reason each)", "field classification containment/reference (DESIGN.md §3.1)"},
+	}
+	if len(renamedAnchors) > 0 {
+		cov["renamed_anchors"] = renamedAnchors
 	}
 	if tier == "thorough" {
 		cov["cha_only"] = chaOnly
